@@ -174,14 +174,12 @@ def ambient():
     """process-global state a library must leave alone (taken before the package is imported and at the end)"""
     import decimal
     import warnings
-    import atexit
     import gc
     import locale
     import logging
     import os
     import random
     import signal
-    import threading
     c = decimal.getcontext()
     sigs = {}
     for name in sorted(dir(signal)):
@@ -197,10 +195,6 @@ def ambient():
         loc = repr(e)
     mask = os.umask(0)
     os.umask(mask)
-    try:
-        nexit = atexit._ncallbacks()
-    except AttributeError:
-        nexit = len(getattr(atexit, "_exithandlers", ()))
     bi = __import__("__builtin__" if PY2 else "builtins")
     return {"decimal": [c.prec, str(c.rounding), c.Emin, c.Emax, c.capitals, getattr(c, "clamp", None),
                         sorted(str(k) for k, v in c.traps.items() if v)],
@@ -221,8 +215,6 @@ def ambient():
             "hooks are the original ones": [sys.excepthook is sys.__excepthook__, sys.displayhook is sys.__displayhook__],
             "logging root": [logging.root.level, len(logging.root.handlers), logging.root.manager.disable, logging.raiseExceptions],
             "random state": hash(repr(random.getstate())) & 0xFFFFFFFF,
-            "threads": threading.active_count(),
-            "atexit callbacks": nexit,
             "builtins": len(dir(bi)),
             "import hooks": [len(sys.meta_path), len(sys.path_hooks)]}
 
@@ -234,7 +226,7 @@ def main():
     import decimal  # noqa  (imported before the snapshot so that the import itself is not counted)
     import warnings  # noqa
     import random  # noqa
-    import atexit, gc, locale, logging, signal, threading  # noqa
+    import gc, locale, logging, signal  # noqa
     out["ambient_before"] = ambient()
     try:
         import cvss
